@@ -1345,7 +1345,9 @@ impl Stream {
                 }
             }
             Stream::InputChannel(stream_layout) => {
-                if stream_layout.stream.get_ref().eof {
+                // the channel may be closed while characters it delivered
+                // are still waiting in the reader's buffer
+                if stream_layout.stream.get_ref().eof && stream_layout.stream.rem_buf_len() == 0 {
                     AtEndOfStream::At
                 } else {
                     AtEndOfStream::Not
